@@ -918,7 +918,11 @@ func (ex *Exec) invoke(cc *ssa.CallCommon, p token.Pos) *Val {
 		sig := m.Type().(*types.Signature)
 		names := []string{"recv"}
 		for i := 0; i < sig.Params().Len(); i++ {
-			names = append(names, sig.Params().At(i).Name())
+			n := sig.Params().At(i).Name()
+			if n == "" || n == "_" {
+				n = fmt.Sprintf("arg%d", i+1) // unnamed parameter of an interface method
+			}
+			names = append(names, n)
 		}
 		return ex.applyContract(ct, name, sig, names, args, p, nil)
 	}
